@@ -32,7 +32,8 @@ PROPS = {
     },
     "C06": {
         "extra": [("mix", 3, 12)], "profile": "all", "n_quick": 5, "n_thorough": 40, "nops": 16, "nlists": 3, "cfgs": SIX,
-        "corpus": ["ortho_codes", "ortho_terminate", "ortho_interrupt", "exitpt_codes", "defer_codes"],
+        "corpus": ["ortho_codes", "ortho_terminate", "ortho_interrupt", "exitpt_codes", "defer_codes",
+                   "fwd_sub_sirows", "fwd_subsub_table", "fwd_subsub_irows", "fwd_subsub_sirows", "fwd_nowhere"],
         "monitor": M.both(M.mon_C06, M.mon_spec),
         "relevant": M.relevant_by(M.proj(M.ALL, keep_res=True)),
         "rule": "same machines as C01; result code and no_transition calls of every process_event",
